@@ -99,9 +99,10 @@ inductive El
   | features (f : Features)
   | proceed (handshakeOk : Bool)       -- `<proceed/>`; the flag is the outcome of the TLS handshake if the client starts one
   | tlsFailure
-  | saslSuccess | saslFailure
+  | saslSuccess (proof : Bool)         -- proof: the success carries a valid SCRAM server signature (RFC 6120 6.4.6)
+  | saslFailure
   | saslChallenge (ok : Bool)          -- ok: a well-formed SCRAM server-first message for the client's nonce
-  | s2Success (b : S2Bound) (r : S2Sm) (token : Bool)
+  | s2Success (b : S2Bound) (r : S2Sm) (token : Bool) (proof : Bool)   -- proof: valid SCRAM server signature as additional data
   | s2Failure
   | s2Challenge (ok : Bool)
   | s2Continue
@@ -406,8 +407,16 @@ def respondable (m : Used) (fresh ok : Bool) : Bool :=
   | .scram => fresh && ok
   | _ => false
 
+/-- may `<success/>` be accepted?  SCRAM: only after the client-final message went out and with a valid server signature in the
+success data (the scripted server never sends the signature as a separate challenge); other mechanisms: always -/
+def successOk (m : Used) (fresh proof : Bool) : Bool :=
+  match m with
+  | .scram => !fresh && proof
+  | _ => true
+
 def saslHandle (s : St) (m : Used) (fresh : Bool) : El → R
-  | .saslSuccess => handleStart { s with authenticated := true }
+  | .saslSuccess proof =>
+    if successOk m fresh proof then handleStart { s with authenticated := true } else failAuth s
   | .saslChallenge ok =>
     if respondable m fresh ok then ({ s with listener := .sasl m false }, [send s .saslResponse])
     else failAuth s
@@ -418,13 +427,15 @@ def sasl2Handle (s : St) (m : Used) (fresh : Bool) : El → R
   | .s2Challenge ok =>
     if respondable m fresh ok then ({ s with listener := .sasl2 m false }, [send s .sasl2Response])
     else failAuth s
-  | .s2Success b r tok =>
-    let s1 := { s with authenticated := true, bind2Bound := decide (b ≠ .none),
-                       hasToken := s.hasToken || (tok && (s.tokenRequested || s.hasToken)) }
-    let r2 := if r = .resumed then onSmResumed s1 else (s1, [])
-    let r3 := if b = .smEnabled then onSmEnabled r2.1 true else (r2.1, [])
-    let r4 := if r = .resumed then openSession r3.1 else (r3.1, [])
-    ({ r4.1 with listener := .idle }, r2.2 ++ r3.2 ++ r4.2)
+  | .s2Success b r tok proof =>
+    if successOk m fresh proof then
+      let s1 := { s with authenticated := true, bind2Bound := decide (b ≠ .none),
+                         hasToken := s.hasToken || (tok && (s.tokenRequested || s.hasToken)) }
+      let r2 := if r = .resumed then onSmResumed s1 else (s1, [])
+      let r3 := if b = .smEnabled then onSmEnabled r2.1 true else (r2.1, [])
+      let r4 := if r = .resumed then openSession r3.1 else (r3.1, [])
+      ({ r4.1 with listener := .idle }, r2.2 ++ r3.2 ++ r4.2)
+    else failAuth s
   | .s2Failure => failAuth s
   | .s2Continue => (s, [send s .sasl2Abort])
   | _ => reject s
